@@ -386,12 +386,22 @@ theorem C09_witness_after_fix :
 
 /-! ### NaN placeholders: shape of a failing row vs shape of a successful row -/
 
+/-- A ROW THAT RAISES `ZeroDivisionError` WHILE ITS SIMULATOR IS BUILT (every scan worker's `except ZeroDivisionError`):
+    for each of the four workers the independent run of such a row IS the NaN placeholder over the worker's success
+    grid, built on the row's own model — no exception escapes; by `C09_parallel_is_independent` /
+    `C09_sequential_is_independent` it then sits at its own position under its own label in every mode -/
+theorem C09_zero_division_row_is_placeholder (cfg : EulerCfg) (run : Content → Except Err (Content × Option (List Seg)))
+    (idx : List Rat) (c c1 : Content) (row : Row) (ig : Integ) (ha : applyRow c row = .ok c1)
+    (hi : simInit cfg c1 = .ok ig) (hz : zeroDivAt cfg c1 = .ok true) :
+    rowPure { run := guardZeroDiv cfg run, dfltIndex := idx } c row = mkDefault c1 idx := by
+  simp only [rowPure, ha, guardZeroDiv, hi, hz]
+
 /-- steady-state worker (full): a successful result has exactly one row and so has the
     placeholder (`SteadyStateScan` takes `.iloc[-1]` of either); the worker leaves the model alone. -/
 theorem C09_nan_shape_steady_state (cfg : EulerCfg) (c c' : Content) (segs : List Seg)
     (h : (ssWorker cfg).run c = .ok (c', some segs)) :
     (segs.flatMap (·.rows)).length = (ssWorker cfg).dfltIndex.length ∧ c' = c := by
-  have := ssRun_shape cfg c c' segs h
+  have := ssRun_shape cfg c c' segs (guardZeroDiv_some h)
   simpa [ssWorker] using this
 
 /-- time-course worker (full, after "fix: NaN placeholders of failed scan rows have the time points of a
@@ -400,14 +410,14 @@ theorem C09_nan_shape_steady_state (cfg : EulerCfg) (c c' : Content) (segs : Lis
 theorem C09_nan_shape_time_course (cfg : EulerCfg) (tps : List Rat) (c c' : Content) (segs : List Seg)
     (h : (tcWorker cfg tps).run c = .ok (c', some segs)) :
     (segs.flatMap (·.rows)).map (·.1) = (tcWorker cfg tps).dfltIndex :=
-  (tcRun_index cfg tps c c' segs h).1
+  (tcRun_index cfg tps c c' segs (guardZeroDiv_some h)).1
 
 /-- protocol worker (full): for every protocol and every `time_points_per_step > 0` a successful row has the
     placeholder's time index — `steps + 1` points for the first step, `steps` for every later one. -/
 theorem C09_nan_shape_protocol (cfg : EulerCfg) (proto : Protocol) (steps : Nat) (hs : 0 < steps)
     (c c' : Content) (segs : List Seg) (h : (protoWorker cfg proto steps).run c = .ok (c', some segs)) :
     (segs.flatMap (·.rows)).map (·.1) = (protoWorker cfg proto steps).dfltIndex :=
-  protoRun_index cfg proto steps hs c c' segs h
+  protoRun_index cfg proto steps hs c c' segs (guardZeroDiv_some h)
 
 /-- the row count the placeholder had before the fix (`len(protocol) * time_points_per_step`) was one short -/
 theorem C09_protocol_row_count (cfg : EulerCfg) (proto : Protocol) (steps : Nat) (hp : proto ≠ []) :
